@@ -172,6 +172,28 @@ def check(run):
                     ok, why = False, f'raises {e}'
                 run.check(ok, 'D2', f'deserialize_hml[{kind}]' if not ok else f'read[{kind},{lab[:10]},m={m}]', f'{kind} encoding of {lab[:16]!r} with m={m}: {why}', prog.where(rd))
                 run.evaluations += 1
+    # what is not a label is not read as one: a unary length the cell ends inside of (no closing 0), a length field cut short by the end
+    # of the cell, a length above the remaining key.  Returning a label (of length -1, say) from such bits makes the parser hand the
+    # children more key than there is
+    for m in (2, 8):
+        w_ = m.bit_length()
+        malformed = {'hml_short, unary length never closed': '0' + '111', 'hml_short, nothing after the tag': '0',
+                     'hml_short, n = 3 but 2 bits left': '0' + '1110' + '10', 'hml_long, length field cut short': '10' + '1' * max(0, w_ - 1),
+                     'hml_long, n above m': '10' + format(m + 1, f'0{(m + 1).bit_length()}b')[-w_:].rjust(w_, '1') + '1' * (m + 1) if (m + 1).bit_length() == w_ else None,
+                     'hml_same, length field cut short': '11' + '1' + '1' * max(0, w_ - 1), 'empty cell': ''}
+        for name_, bits_ in malformed.items():
+            if bits_ is None:
+                continue
+            it = Interp(prog)
+            s = cm.call_method(it, cm.new_cell(it, cm.tvm_bits(it, BA([Seg(len(bits_), 'k', bits_)] if bits_ else [])), []), 'begin_parse')
+            try:
+                r = it.invoke(rd, [s, K(m)], {})
+                n_ = r.items[0] if isinstance(r, ListV) and r.items else r
+                ok, why = False, f'returns a label of length {vrepr(n_)}'
+            except RaiseEx as e:
+                ok, why = True, f'refused ({e.kind})'
+            run.check(ok, 'D2', 'deserialize_hml[malformed label]' if not ok else f'refuse[{name_},m={m}]', f'{name_} (bits {bits_!r}, m={m}): {why}', prog.where(rd))
+            run.evaluations += 1
     # ---- D3 canonical trees
     ws = prog.where(prog.func('serialize_dict'))
     families = []
